@@ -170,6 +170,12 @@ PowerOn(a2) ==
     /\ on' = TRUE /\ swA' = a2 /\ fixAge' = FixClock(a2, FALSE) /\ act' = "PowerOn"
     /\ UNCHANGED <<cfgv, swV, installing, fsv, osAge, inTick>>
 
+(* anything else that happens on the node or on the network (other requests, benign traffic, pre-tick   *)
+(* housekeeping): it changes no health                                                                *)
+Other ==
+    /\ act' = "Other"
+    /\ UNCHANGED <<cfgv, on, swv, fsv, osAge, inTick>>
+
 -----------------------------------------------------------------------------
 (* one tick *)
 TickBegin ==
